@@ -134,6 +134,15 @@ IMPG = """	vals := strings.Fields(strings.ToLower(s[2:]))
 	}
 	return vals
 """
+
+FTL = """		for _, name := range param.Names {
+			f.Args = append(f.Args, Arg{Name: name.Name, Type: typ})
+		}
+		// an unnamed parameter is still a parameter
+		if len(param.Names) == 0 {
+			f.Args = append(f.Args, Arg{Name: fmt.Sprintf("arg%d", len(f.Args)), Type: typ})
+		}
+"""
 # (id, kind S=semantic H=harmless, item names, file, old, new, expected coverage value prefix)
 MUTANTS = [
     ("joinArgs-S1 b before a", "S", ["joinArgs"], "sh/cmd.go", JA, "\tout := make([]string, 0, len(a)+len(b))\n\tout = append(out, b...)\n\treturn append(out, a...)\n", "differs"),
@@ -240,6 +249,16 @@ MUTANTS = [
     ("importTag-S5 extra words ignored instead of rejected", "S", ["importTag"], "parse/parse.go", "\tcase 2:\n\t\t// also has an alias\n\t\treturn path, vals[1], true\n\tdefault:", "\tdefault:\n\t\t// also has an alias\n\t\treturn path, vals[1], true\n\tcase 0:", "differs"),
     ("importTag-H1 tests merged, locals renamed", "H", ["importTag"], "parse/parse.go", IMPG, "\twords := strings.Fields(strings.ToLower(s[2:]))\n\tif len(words) == 0 || words[0] != importTag {\n\t\treturn nil\n\t}\n\treturn words\n", "proved"),
     ("importTag-H2 if chain instead of the switch", "H", ["importTag"], "parse/parse.go", "\tswitch len(vals) {\n\tcase 1:\n\t\t// just the import tag, this is a root import\n\t\treturn path, \"\", true\n\tcase 2:\n\t\t// also has an alias\n\t\treturn path, vals[1], true\n\tdefault:\n\t\tlog.Println(\"warning: ignoring malformed\", importTag, \"for import\", path)\n\t\treturn \"\", \"\", false\n\t}", "\tif len(vals) == 1 {\n\t\treturn path, \"\", true\n\t}\n\tif len(vals) == 2 {\n\t\treturn path, vals[1], true\n\t}\n\tlog.Println(\"warning: ignoring malformed\", importTag, \"for import\", path)\n\treturn \"\", \"\", false", "proved"),
+    # ---- fifth batch
+    ("UsesMagefiles-S1 compares the whole path", "S", ["UsesMagefiles"], "mage/main.go", "return filepath.Base(i.Dir) == MagefilesDirName", "return i.Dir == MagefilesDirName || filepath.Base(i.Dir) == \"\"", "differs"),
+    ("UsesMagefiles-H1 local for the base name", "H", ["UsesMagefiles"], "mage/main.go", "return filepath.Base(i.Dir) == MagefilesDirName", "base := filepath.Base(i.Dir)\n\treturn base == MagefilesDirName", "proved"),
+    ("funcType-S1 unnamed parameters get no Arg (the tree before c50893e)", "S", ["funcType"], "parse/parse.go", FTL, FTL.replace("\t\t// an unnamed parameter is still a parameter\n\t\tif len(param.Names) == 0 {\n\t\t\tf.Args = append(f.Args, Arg{Name: fmt.Sprintf(\"arg%d\", len(f.Args)), Type: typ})\n\t\t}\n", ""), "differs"),
+    ("funcType-S2 the context parameter is converted like an argument", "S", ["funcType"], "parse/parse.go", "\tx := 0\n\tif f.IsContext {\n\t\tx++\n\t}\n", "\tx := 0\n", "differs"),
+    ("funcType-S3 unsupported parameter types skipped instead of rejected", "S", ["funcType"], "parse/parse.go", "\t\tif !ok {\n\t\t\treturn nil, fmt.Errorf(\"unsupported argument type: %s\", t)\n\t\t}\n", "\t\tif !ok {\n\t\t\tcontinue\n\t\t}\n", "differs"),
+    ("funcType-S4 bool parameters declared as string", "S", ["funcType"], "parse/parse.go", "\t\"bool\":             \"bool\",\n}", "\t\"bool\":             \"string\",\n}", "differs"),
+    ("funcType-S5 generic functions accepted", "S", ["funcType"], "parse/parse.go", "\tif hasTypeParams(ft) {\n\t\t// a generic function cannot be called without instantiating it\n\t\treturn nil, errors.New(\"EGENERIC\")\n\t}\n", "\t_ = hasTypeParams(ft)\n", "differs"),
+    ("funcType-S6 unnamed parameters numbered by position, not by argument count", "S", ["funcType"], "parse/parse.go", FTL, FTL.replace("len(f.Args))", "x)"), "differs"),
+    ("funcType-H1 locals, append in one place", "H", ["funcType"], "parse/parse.go", FTL, "\t\tnames := param.Names\n\t\tfor _, id := range names {\n\t\t\tf.Args = append(f.Args, Arg{Name: id.Name, Type: typ})\n\t\t}\n\t\tif len(names) == 0 {\n\t\t\tautoName := fmt.Sprintf(\"arg%d\", len(f.Args))\n\t\t\tf.Args = append(f.Args, Arg{Name: autoName, Type: typ})\n\t\t}\n", "proved"),
 ]
 
 
@@ -268,7 +287,10 @@ def main():
                 text = text.replace(o2, n2)
             open(path, "w").write(text)
             try:
-                rc = subprocess.run(["go", "build", "./..."], cwd=SCRATCH, env=vlib.goenv(), stdout=subprocess.PIPE, stderr=subprocess.STDOUT)
+                for attempt in range(4):      # (another process may be trimming the shared go build cache: a link step can lose its input)
+                    rc = subprocess.run(["go", "build", "./..."], cwd=SCRATCH, env=vlib.goenv(), stdout=subprocess.PIPE, stderr=subprocess.STDOUT)
+                    if rc.returncode == 0 or b"go-build" not in rc.stdout:
+                        break
                 assert rc.returncode == 0, (mid, rc.stdout.decode()[-800:])
                 ctx = vlib.Ctx("SELFTEST", "quick", 1)
                 seen = []
